@@ -25,7 +25,8 @@ from chameleon.utils import resolve_dotted
 DEFAULT_MARKER = ImportableMarker(__name__, "DEFAULT")
 
 split_parts = re.compile(r'(?<!\\)\|')
-match_prefix = re.compile(r'^\s*([a-z][a-z0-9\-_]*):').match
+# (``lambda: ...`` is a Python expression, not an expression type.)
+match_prefix = re.compile(r'^\s*(?!lambda:)([a-z][a-z0-9\-_]*):').match
 re_continuation = re.compile(r'\\\s*$', re.MULTILINE)
 
 
@@ -558,8 +559,9 @@ class ExpressionParser:
         try:
             factory = self.factories[prefix]
         except KeyError as exc:
-            raise LookupError(
-                "Unknown expression type: %s." % str(exc)
+            raise ExpressionError(
+                "Unknown expression type: %s." % str(exc),
+                m.string[m.start(1):m.end(1)] if m is not None else prefix
             )
 
         return factory(expression)
